@@ -4,7 +4,8 @@ flows split at block ends) far more often than real files or token soup do."""
 
 HEADERS = ['def f(a, b=1):', 'async def g(x):', 'class A:', 'class B(A, metaclass=M):', 'if x:', 'elif y:', 'else:', 'for i in j:',
            'async for i in j:', 'while x:', 'try:', 'except E as e:', 'except:', 'finally:', 'with a as b:', 'async with a:',
-           '@decorator', '@a.b(c)', 'def __init__(self):', 'if (a and', 'def h(', 'class C(', 'lambda:', 'match x:', 'case 1:']
+           '@decorator', '@a.b(c)', 'def __init__(self):', 'if (a and', 'def h(', 'class C(', 'lambda:', 'match x:', 'case 1:',
+           '@d\nasync def k(z):', '@d1\n@d2(x)\nasync def m():', '@d\nclass D:', '@d\ndef n():', 'async def p():', '@staticmethod\nasync def q(self):']
 ONELINERS = ['pass', 'x = 1', 'return x', 'return self.', 'await -', 'yield', 'x = (', 'foo(a,', ')', ']', 'import os', 'from a import (b,',
              'x = [1, 2', 'raise E', 'break', 'continue', 'del x', 'global g', 'nonlocal n', 'assert x, y', 'x: int = 1', 'print(x)',
              'self.x = y', 'f"{x}"', 'f"{x', '"' * 3 + 'doc' + '"' * 3, '"' * 3 + 'open', "'" * 3, 'x = ' + '"' * 3 + 'a', 'b' + '"' * 3,
@@ -27,10 +28,10 @@ def structured_program(rng, nlines=None):
         if r < .28:
             h = rng.choice(HEADERS)
             if rng.random() < .2:
-                out.append(ind + h + ' ' + rng.choice(ONELINERS) + '\n')      # one-line suite
+                out.append(ind + h.replace('\n', '\n' + ind) + ' ' + rng.choice(ONELINERS) + '\n')      # one-line suite
             else:
-                out.append(ind + h + '\n')
-                if not h.startswith('@') and h.endswith(':'):
+                out.append(ind + h.replace('\n', '\n' + ind) + '\n')
+                if h.endswith(':') and not h.split('\n')[-1].startswith('@'):
                     level = min(level + 1, 6)
         else:
             out.append(ind + rng.choice(ONELINERS) + '\n')
